@@ -76,6 +76,7 @@ var delims = []string{"(", ")", "[", "]", "{", "}", ",", ":"}
 
 var asciiFirst = "abcdefghijklmnopqrstuvwxyzABCDEFGHIJKLMNOPQRSTUVWXYZ_"
 var asciiRest = asciiFirst + "0123456789"
+
 // (the second line: letters whose code point ends in the byte of an ASCII character the lexer treats specially -
 // blank, tab, LF, CR, quote, '#', '/', '(', ')', ',', ':', '{', '}', back-tick, '0', NUL)
 var mbLetters = []string{"é", "ñ", "ü", "Ж", "я", "ポ", "ケ", "漢", "字", "λ", "ß", "𝒳",
@@ -500,11 +501,11 @@ type placed struct {
 
 type layout struct {
 	endLine, endBcol, endRcol int // position just behind the last character of the source
-	src      string
-	toks     []placed
-	sepSig   []string         // one entry per gap
-	counts   map[string]int64 // separators by kind
-	eofInCmt bool
+	src                       string
+	toks                      []placed
+	sepSig                    []string         // one entry per gap
+	counts                    map[string]int64 // separators by kind
+	eofInCmt                  bool
 }
 
 type writer struct {
